@@ -17,6 +17,13 @@ CLAIMED["C02"] = dict(
    technique="static analysis: tag-specialised abstract interpretation over clang CFGs (typestate of tagged unions), dispatch-coverage matrix, table check",
    ref="DESIGN.md §4 C02")
 PENDING = {}
+CLAIMED["C12"] = dict(
+   text="Decides the structural mechanisms `conversion follows the zone file` depends on, for all zone files and instants at once: every carrier of a transition index is at least 31 bits wide and no narrowing conversion is applied to one; the transition bisection makes progress on each non-returning path, answers keys at/after the last (clamped) transition before the loop and returns its probe only under tl <= t < tu; every comparison against a cached/handed-out range treats it as half-open [prev,next); the range is built from one index; the loader walks the TZif blocks with exactly the record sizes of the format (v1 block skip, 8/4-byte times, 1-byte types, 6-byte ttinfo) and reads the counts from the right header fields; the byte readers are big-endian; the two glue functions call the right direction and record the sign of the offset consistently. Does not decide the offsets themselves.",
+   note="Trusted: RFC 8536 layout constants in the rule; clang record layouts = gcc's; callers of __find_trno pass max = ntr or an index whose transition is > t (checked for __offs by the half-open rule).",
+   technique="static analysis: type/width facts from record layouts, CFG reachability (found-guard, progress), operator discipline on range bounds, linear-form comparison of loader cursor arithmetic with the TZif format",
+   ref="DESIGN.md §4 C12")
+
+
 def main():
     props = [json.loads(l)["id"] for l in open(os.path.join(HERE, "properties.jsonl"))]
     checks = []
